@@ -89,25 +89,30 @@ def allowRuleOk : JVal → Bool
   | .obj a => !(seqString (members a b!"type")).err && !(seqString (members a b!"room_id")).err
   | _ => false
 
-/-- `JoinRule()` -/
+/-- the `allow` member (`[]JoinRuleContentAllowRule`) fails to decode -/
+def allowMemberErr : Option JVal → Bool
+  | none => false
+  | some .null => false
+  | some (.arr xs) => !xs.all allowRuleOk
+  | some _ => true
+
+/-- `JoinRule()`: the content restricted to the members named exactly `join_rule` / `allow` (`exactMembersOnly`, as the
+    auth rules read a join-rules event: `NewJoinRuleContentFromAuthEvents`), then json.Unmarshal.  (The members of an
+    `allow` entry are still matched the encoding/json way.) -/
 def joinRule (e : PDU) : Except Err Bytes :=
   if !stateKeyEquals e [] then .error errOther else
   match e.f.content with
   | none => .error errOther
   | some .null => .ok []
   | some (.obj kvs) =>
-    let d := seqString (members kvs b!"join_rule")
-    let allowErr := (members kvs b!"allow").any (fun v => match v with
-      | .null => false
-      | .arr xs => !xs.all allowRuleOk
-      | _ => true)
-    if d.err || allowErr then .error errOther else .ok d.val
+    let d := decString (lookupExact kvs b!"join_rule")
+    if d.err || allowMemberErr (lookupExact kvs b!"allow") then .error errOther else .ok d.val
   | some _ => .error errOther
 
-/-- `HistoryVisibility()` -/
+/-- `HistoryVisibility()`: the member named exactly `history_visibility` -/
 def historyVisibility (e : PDU) : Except Err Bytes :=
   if !stateKeyEquals e [] then .error errOther else
-  match contentString e b!"history_visibility" with
+  match contentStringExact e b!"history_visibility" with
   | none => .error errOther
   | some v => .ok v
 
